@@ -518,6 +518,13 @@ def tour():
                 for act in ("drop", "cnt") + (("getmut",) if arc_k else ()):
                     tail = ["isUnique 0", "getMut 0 78"] if name != "offset.sized" and not opn.startswith("unwrap") else []
                     hs.append(["reset"] + MAKERS[name] + cfg + [opn % act] + tail + ["dropAll"])
+    # ... drops the other handle and THEN `clone` panics: unwinding releases the library's own reference (unwrap_or_clone) — as the
+    # LAST owner: the value is destroyed exactly once and the block freed during the unwind — or keeps it (make_mut / make_unique)
+    for name in ("arc.sized", "offset.sized", "arc.boxed"):
+        for cfg in (["clone 1 0"], ["clone 1 0", "clone 2 0"], ["clone 1 0", "conv 1 intoRawOffset"], ["clone 1 0", "conv 1 unionFirst"]):
+            for opn in (["makeMutH 0 77 1 droppanic"] + (["makeUniqueH 0 77 1 droppanic", "unwrapOrCloneH 0 1 droppanic"] if name != "offset.sized" else [])):
+                tail = ["isUnique 0", "getMut 0 78"] if name != "offset.sized" and not opn.startswith("unwrap") else []
+                hs.append(["reset"] + MAKERS[name] + cfg + [opn] + tail + ["dropAll"])
     # (sole owner: clone is not called, the hook does not run)
     hs.append(["reset", "create 0 new 1:1", "create 1 new 2:2", "makeMutH 0 77 1 drop", "makeUniqueH 0 78 1 cnt", "unwrapOrCloneH 0 1 drop", "dropAll"])
     # arc-swap integration (RefCnt for Arc<T>): an ArcSwapAny cell as one more owner; load guards, load_full, store,
@@ -603,6 +610,9 @@ def tour():
             if mk in ("newUninitSlice", "newUninit"):
                 w2 = ["writeSlot 0 %d %d:%d" % (i, 20 + i, i) for i in range(n) if mask >> i & 1]
                 hs.append(["reset", mkop, "clone 1 0"] + w + ["drop 1"] + w2 + ["conv 0 assumeInit", "dropAll"])
+    # assume_init on a SHARED handle (every slot was written while it was unique): the handle changes its type, nothing else
+    hs.append(["reset", "create 0 newUninit", "writeSlot 0 0 1:1", "clone 1 0", "conv 0 assumeInit", "clone 2 0", "conv 1 assumeInit", "drop 0", "dropAll"])
+    hs.append(["reset", "create 0 newUninitSlice 2", "writeSlot 0 0 1:1", "writeSlot 0 1 2:2", "clone 1 0", "clone 2 0", "conv 0 assumeInit", "conv 2 assumeInit", "drop 0", "dropAll"])
     return hs
 
 
@@ -669,6 +679,30 @@ def monitor_history(ops, obs, elem_size=8):
                 if p[1] in dropped:
                     fails.append((i, ["C01", "C06", "C07", "C02"], "value %s destroyed twice" % p[1]))
                 dropped.add(p[1])
+        # C01: "its destructor runs exactly once, at the moment the last owning handle is released": when a block goes back to
+        # the allocator, every value it was last SEEN to hold through an initialised view is destroyed by the same op — unless the
+        # op hands the value to the caller (try_unwrap / into_inner / unwrap_or_clone of a sole owner).  (Also when the last
+        # handle is released by unwinding.)
+        if elem_size > 0:
+            moved_out = (f[0] in ("tryUnwrap", "intoInner") and o["out"].startswith(("ok=", "val="))) or \
+                        (f[0] in ("unwrapOrClone", "unwrapOrCloneH") and "val=" in o["out"] and not any(e.startswith("clone:") for e in o["ev"]))
+            if not moved_out:
+                for e in o["ev"]:
+                    pp = e.split(":")
+                    if pp[0] != "dealloc":
+                        continue
+                    b = int(pp[1][1:])
+                    views = [z for z in pre.values() if z["blk"] == b and z["ty"] in ELEMS_INIT and not z["dig"].endswith("-") and "?" not in z["dig"]]
+                    if not views or any(z["blk"] == b and z["ty"] not in ELEMS_INIT for z in pre.values()):
+                        continue        # released through (or next to) a MaybeUninit view: no destructor runs there, by design
+                    ids = set(re.findall(r"(\d+)\.\d+", views[0]["dig"]))
+                    gone = {x[5:] for x in o["ev"] if x.startswith("drop:")}
+                    missing = sorted(ids - gone - dropped)
+                    if missing:
+                        tg = ["C01", "C02"] + (["C07"] if st.startswith("panic") else []) + (["C09"] if f[0].startswith(("unwrapOrClone", "tryUnwrap", "tryUnique", "intoInner")) else []) \
+                            + (["C08"] if f[0].startswith(("makeMut", "makeUnique")) else []) + (["C10"] if f[0] == "intoThin" else [])
+                        fails.append((i, tg, "block b%d was returned to the allocator but the value(s) %s it held were never destroyed (destructor skipped at the last release%s)" % (
+                            b, ",".join(missing), ", which happened while unwinding" if st.startswith("panic") else "")))
         # C01: a block nobody owns any more must have been released in this op
         for b in list(live):
             if owners(post, b) == 0 and b not in leaked_ok:
@@ -894,6 +928,8 @@ def monitor_history(ops, obs, elem_size=8):
         if f[0] == "writeSlot" and st == "ok" and src is not None and src in pre:
             written.setdefault(pre[src]["blk"], {})[f[2]] = f[3].split(":")[0]
             ever_written.setdefault(pre[src]["blk"], set()).add(f[3].split(":")[0])
+        if f[0] == "conv" and len(f) > 2 and f[2] == "assumeInit" and st.startswith("panic") and src is not None and src in pre:
+            fails.append((i, ["C15"], "assume_init on a fully written handle (%d owning handle(s)) panicked instead of changing the handle's type: %s" % (owners(pre, pre[src]["blk"]), st)))
         if f[0] == "conv" and len(f) > 2 and f[2] == "assumeInit" and st == "ok" and src in pre and src in post:
             if post[src]["blk"] != pre[src]["blk"] or post[src]["cnt"] != pre[src]["cnt"] or o["ev"]:
                 fails.append((i, ["C15"], "assume_init changed allocation/count or caused events: %s -> %s %s" % (pre[src], post[src], o["ev"])))
